@@ -147,6 +147,8 @@ class ExprMixin:
         return VTuple([self.ev(x, p) for x in e.elts])
 
     def ev_Dict(self, e, p):
+        if not e.keys:       # {}: an empty map from (int, int) keys to ints (the reader's rank dictionaries)
+            return VMap(z3.K(I, z3.K(I, z3.BoolVal(False))), z3.K(I, z3.K(I, z3.IntVal(0))))
         d = {}
         for k, v in zip(e.keys, e.values):
             kk = self.ev(k, p)
@@ -256,6 +258,11 @@ class ExprMixin:
     def contains_term(self, t, x):
         from .engine import contains
         return contains(t, x)
+
+    def map_key(self, i, p, line):
+        a, b = i.items
+        ta, _ = self.num(a, 'key', p, line); tb, _ = self.num(b, 'key', p, line)
+        return ta, tb
 
     def toreal(self, v):
         if isinstance(v, VReal): return v.t
@@ -527,9 +534,9 @@ class ExprMixin:
             raise Undecided('dict key at line %d' % line)
         if isinstance(b, VMap):
             if not (isinstance(i, VTuple) and len(i.items) == 2): raise Undecided('map key')
-            k = self.map_key(i, p, line)
-            self.vc('no-raise/key@%d' % line, p, z3.Select(b.has, k), line=line)
-            return VInt(z3.Select(b.val, k))
+            k1, k2 = self.map_key(i, p, line)
+            self.vc('no-raise/key@%d' % line, p, z3.Select(z3.Select(b.has, k1), k2), line=line)
+            return VInt(z3.Select(z3.Select(b.val, k1), k2))
         if isinstance(i, VOpt) or isinstance(i, VNone):
             t, _ = self.num(i, 'index', p, line); i = VInt(t)
         if not isinstance(i, VInt):
